@@ -218,3 +218,17 @@ pub fn canon_dict(d: &Dictionary, out: &mut Vec<u8>) {
     }
     out.push(b'>');
 }
+
+/// A stream's Length may be written as an indirect reference; readers that keep the reference
+/// are compared after replacing it by the actual content length (the strict reader has already
+/// verified that the referenced integer equals the number of bytes).
+pub fn normalise_lengths(objects: &mut BTreeMap<ObjectId, Object>) {
+    for o in objects.values_mut() {
+        if let Object::Stream(s) = o {
+            if matches!(s.dict.get(b"Length"), Ok(Object::Reference(_))) {
+                let n = s.content.len() as i64;
+                s.dict.set("Length", Object::Integer(n));
+            }
+        }
+    }
+}
